@@ -233,4 +233,62 @@ pub proof fn lemma_contains_eq(s: Seq<String>, x: String)
     }
 }
 
+// ---- one-event unfoldings of g_build / scan, stated as lemmas so that the exec proof of build_struct only has to
+// ---- match arguments instead of unfolding the recursive definitions inside its large context
+pub proof fn lemma_abs_set_text(a: Element<String>, b: Element<String>)
+    requires
+        b.name == a.name, b.text is Some, b.standalone == a.standalone, b.count == a.count,
+        b.attributes == a.attributes, b.children == a.children, b.position == a.position,
+    ensures abs(b) == (GEl { text_some: true, ..abs(a) }),
+{}
+pub open spec fn is_ignorable(x: RdItem) -> bool {
+    x == RdItem::Ev(AbsEv::Comment) || x == RdItem::Ev(AbsEv::Decl) || x == RdItem::Ev(AbsEv::PI) || x == RdItem::Ev(AbsEv::DocType)
+}
+pub proof fn lemma_step_skip(s: GEl, p: Seq<RdItem>, k: Seq<String>)
+    requires p.len() > 0, is_ignorable(p[0]),
+    ensures g_build(s, p, k) == g_build(s, p.drop_first(), k), scan(p) == scan(p.drop_first()),
+{}
+pub proof fn lemma_step_text(s: GEl, p: Seq<RdItem>, k: Seq<String>, b: Seq<u8>)
+    requires p.len() > 0, p[0] == RdItem::Ev(AbsEv::Text(b)) || p[0] == RdItem::Ev(AbsEv::CData(b)), utf8_ok(b),
+    ensures g_build(s, p, k) == g_build(GEl { text_some: true, ..s }, p.drop_first(), k), scan(p) == scan(p.drop_first()),
+{}
+pub proof fn lemma_step_empty(s: GEl, p: Seq<RdItem>, k: Seq<String>, t: Tag)
+    requires p.len() > 0, p[0] == RdItem::Ev(AbsEv::Empty(t)), g_tag_ok(t), g_parse_tag(s, t, k, None).0 is Some,
+    ensures
+        g_build(s, p, k) == g_build(g_tag_opt(g_parse_tag(s, t, k, None).0->Some_0, utf8_str(t.name), Map::empty()), p.drop_first(), g_parse_tag(s, t, k, None).1),
+        scan(p) == scan(p.drop_first()),
+{}
+pub proof fn lemma_step_start(s: GEl, p: Seq<RdItem>, k: Seq<String>, t: Tag)
+    requires
+        p.len() > 0, p[0] == RdItem::Ev(AbsEv::Start(t)), g_tag_ok(t),
+        g_parse_tag(s, t, k, Some(p.drop_first())).0 is Some,
+        scan(p.drop_first()).0,
+        g_parse_tag(s, t, k, Some(p.drop_first())).2 == scan(p.drop_first()).1,
+    ensures
+        ({
+            let cc = g_count_children(s, utf8_str(t.name));
+            let r = g_parse_tag(s, t, k, Some(p.drop_first()));
+            let s2 = if cc.1 { g_tag_opt(r.0->Some_0, utf8_str(t.name), cc.0) } else { r.0->Some_0 };
+            g_build(s, p, k) == g_build(s2, r.2, r.1) && scan(p) == scan(r.2)
+        }),
+{
+    lemma_scan_shrinks(p.drop_first());
+}
+
+// ---- one-element unfoldings of the list folds (loop-step lemmas for count_children / tag_optional_children)
+pub proof fn lemma_mand_counts_step(kids: Seq<Necessity<Element<String>>>, i: int)
+    requires 0 <= i < kids.len(),
+    ensures mand_counts(kids.take(i + 1)) == (if kids[i] is Mandatory { mand_counts(kids.take(i)).insert(kids[i].val().name, kids[i].val().count) } else { mand_counts(kids.take(i)) }),
+{
+    assert(kids.take(i + 1).drop_last() == kids.take(i));
+    assert(kids.take(i + 1).last() == kids[i]);
+}
+pub proof fn lemma_to_optional_step(kids: Seq<Necessity<Element<String>>>, snap: Map<String, u32>, i: int)
+    requires 0 <= i < kids.len(),
+    ensures to_optional_names(kids.take(i + 1), snap) == (if demote_rule(kids[i], snap) { to_optional_names(kids.take(i), snap).push(kids[i].val().name) } else { to_optional_names(kids.take(i), snap) }),
+{
+    assert(kids.take(i + 1).drop_last() == kids.take(i));
+    assert(kids.take(i + 1).last() == kids[i]);
+}
+
 } // verus!
